@@ -518,26 +518,49 @@ Qed.
 End Ruid.
 
 (* ------------------------------------------------------------------------------------------ *)
-(* transactions of several operations: a committed transaction is exactly the run of its operations,
-   every one of them committing; a failed one changes nothing. So the history theorems above, stated
-   over single operations, cover histories of multi-operation transactions (e.g. mint, burn and
-   re-mint of an id inside one transaction). *)
-Lemma tx_go_ok : forall ops m m' u, tx_go m ops = (m', ROk u) ->
-  m' = final m ops /\ forall e, In e (run m ops) -> is_ok (snd e) = true.
+(* admission: a committed operation was admitted by the auth module and allowed by the resource's
+   feature flag, and then it is exactly the store operation `step`; a refused one changes nothing *)
+Theorem astep_spec : forall cfg m auth o,
+  (is_ok (snd (astep cfg m auth o)) = true ->
+     auth = true /\ astep cfg m auth o = step m o /\
+     (match o with OMint _ | OMintRuid _ => mintable cfg = true | OBurn _ => burnable cfg = true | _ => True end)) /\
+  (is_ok (snd (astep cfg m auth o)) = false -> fst (astep cfg m auth o) = m).
 Proof.
-  induction ops as [|o ops IH]; intros m m' u H; cbn in H.
-  - inversion H. subst. split; [reflexivity|intros e []].
-  - destruct (step m o) as [m1 r] eqn:E. destruct r as [x|e|]; try (inversion H; fail).
-    destruct (IH _ _ _ H) as [A B]. split.
-    + change (final m (o :: ops)) with (final (fst (step m o)) ops). rewrite E. exact A.
-    + change (run m (o :: ops)) with ((m, o, fst (step m o), snd (step m o)) :: run (fst (step m o)) ops).
-      rewrite E. intros e [<-|Hin]; [reflexivity|apply B; exact Hin].
+  intros cfg m auth o. unfold astep. destruct auth; cbn [negb].
+  - destruct o as [es|es|ids|id f v].
+    + destruct (mintable cfg); [split; [intros _; repeat split|apply step_fail_same]|cbn; split; [discriminate|reflexivity]].
+    + destruct (mintable cfg); [split; [intros _; repeat split|apply step_fail_same]|cbn; split; [discriminate|reflexivity]].
+    + destruct (burnable cfg); [split; [intros _; repeat split|apply step_fail_same]|cbn; split; [discriminate|reflexivity]].
+    + split; [intros _; repeat split|apply step_fail_same].
+  - cbn. split; [discriminate|reflexivity].
 Qed.
-Theorem tx_step_spec : forall m ops,
-  (is_ok (snd (tx_step m ops)) = true ->
-     fst (tx_step m ops) = final m ops /\ forall e, In e (run m ops) -> is_ok (snd e) = true) /\
-  (is_ok (snd (tx_step m ops)) = false -> fst (tx_step m ops) = m).
+
+(* transactions of several operations (each with the auth decision for its own method): a committed
+   transaction is exactly the run of its operations, every one admitted and committing; a failed one
+   changes nothing. So the history theorems above, stated over single store operations, cover
+   histories of admitted multi-operation transactions (e.g. mint, burn and re-mint of an id inside
+   one transaction). *)
+Lemma tx_go_ok : forall cfg ops m m' u, tx_go cfg m ops = (m', ROk u) ->
+  m' = final m (map snd ops) /\ (forall e, In e (run m (map snd ops)) -> is_ok (snd e) = true) /\
+  Forall (fun ao => fst ao = true) ops.
 Proof.
-  intros m ops. unfold tx_step. destruct (tx_go m ops) as [m' r] eqn:E. destruct r as [u|e|]; cbn; split; intros H; try discriminate; try reflexivity.
-  apply (tx_go_ok _ _ _ _ E).
+  intros cfg. induction ops as [|[a o] ops IH]; intros m m' u H; cbn [tx_go] in H.
+  - inversion H. subst. repeat split; [intros e []|constructor].
+  - destruct (astep cfg m a o) as [m1 r] eqn:E. destruct r as [x|e|]; try (inversion H; fail).
+    destruct (IH _ _ _ H) as (A & B & C).
+    destruct (astep_spec cfg m a o) as [S _]. rewrite E in S. destruct (S eq_refl) as (Ha & Hs & _).
+    cbn [map snd]. repeat split.
+    + change (final m (o :: map snd ops)) with (final (fst (step m o)) (map snd ops)). rewrite <- Hs. exact A.
+    + change (run m (o :: map snd ops)) with ((m, o, fst (step m o), snd (step m o)) :: run (fst (step m o)) (map snd ops)).
+      rewrite <- Hs. intros e0 [<-|Hin]; [reflexivity|apply B; exact Hin].
+    + constructor; [exact Ha|exact C].
+Qed.
+Theorem tx_step_spec : forall cfg m ops,
+  (is_ok (snd (tx_step cfg m ops)) = true ->
+     fst (tx_step cfg m ops) = final m (map snd ops) /\
+     (forall e, In e (run m (map snd ops)) -> is_ok (snd e) = true) /\ Forall (fun ao => fst ao = true) ops) /\
+  (is_ok (snd (tx_step cfg m ops)) = false -> fst (tx_step cfg m ops) = m).
+Proof.
+  intros cfg m ops. unfold tx_step. destruct (tx_go cfg m ops) as [m' r] eqn:E. destruct r as [u|e|]; cbn; split; intros H; try discriminate; try reflexivity.
+  apply (tx_go_ok _ _ _ _ _ E).
 Qed.
